@@ -1077,6 +1077,26 @@ impl Ctx {
                 }
                 return;
             }
+            ["lockfor", ms] => {
+                // another connection holds SQLite's write lock for MS milliseconds, starting now (a backup, a
+                // long transaction of another instance): requests arriving meanwhile have to wait for it
+                if self.backend == Backend::Sqlite {
+                    let ms: u64 = ms.parse().unwrap();
+                    let path = self.data_dir().join("taskchampion-sync-server.sqlite3");
+                    let con = rusqlite::Connection::open(&path).expect("lockfor open");
+                    con.execute_batch("BEGIN IMMEDIATE").expect("lockfor lock");
+                    std::thread::spawn(move || {
+                        std::thread::sleep(std::time::Duration::from_millis(ms));
+                        let _ = con.execute_batch("ROLLBACK");
+                        drop(con);
+                    });
+                }
+                return;
+            }
+            ["sleep", ms] => {
+                std::thread::sleep(std::time::Duration::from_millis(ms.parse().unwrap()));
+                return;
+            }
             ["subdir", name] => {
                 // the data directory gets a name of the operator's choosing (characters that mean
                 // something in a URI, a query or an SQL string included); SQLite only
